@@ -1,6 +1,409 @@
-(* C15 -- placeholder while the proofs are being developed *)
+(* C15 -- stream compression of tar input/output is transparent.
+   Statements only; every proof is one [exact] of a lemma from coq/C15/*.v.
+
+   What is modelled (XfrmModel.v, line by line from the working tree):
+     lib/xfrm/src/istream.c   precache / xfrm_get_buffered_data / xfrm_advance_buffer   [reader]
+     lib/xfrm/src/ostream.c   flush_inbuf / xfrm_append / xfrm_flush                    [writer]
+     lib/xfrm/src/{gzip,xz}.c process_data      [mk_zlib]   bzip2.c [mk_bzip2]   zstd.c [mk_zstd]
+   over an ABSTRACT codec library ([codec]: one call of inflate/deflate, lzma_code,
+   BZ2_bzDecompress/BZ2_bzCompress, ZSTD_decompressStream/ZSTD_compressStream2).
+
+   The contract assumed of a library is [dec_contract] / [enc_contract] (XfrmSpec.v):
+     a call consumes a prefix of the offered input and produces at most [cap] bytes; these extend
+     the two ghost strings "consumed / produced since the last member boundary" ([dc_step]);
+     END is reported exactly when the consumed bytes are a complete member and everything it contains
+     has been delivered ([dc_end]); with input and room the library moves ([dc_progress]); BUF_ERROR
+     without a finishing flush means that nothing happened ([dc_buf_stuck]); once a whole member has
+     been consumed it is drained without further input ([dc_complete]); what has been delivered is a
+     prefix of the member's content ([dc_prefix]); an error is only reported for input that is not a
+     prefix of / does not start with a member ([dc_err]); the decoder never reads past the end of a
+     member ([dc_no_overrun]); encoder: END only under a finishing flush with all input taken and then
+     the emitted bytes are a member whose content is the consumed bytes ([ec_end]); pending output
+     comes out of a finite backlog ([ec_drain]); after finishing has started only finishing calls
+     without new input are covered ([eadm]: the documented protocol of all four libraries).
+   [Member z p] ("z is exactly one member and expands to p") is abstract too: [format_ok] = members
+   exist, are non-empty, self-delimiting and have one content.  [Stream Member z p]: z is a
+   concatenation of members and p the concatenation of their contents, i.e. "decode_all z = p".
+
+   The wrapped streams: the compressed input is a byte list with a schedule [ws] of window sizes
+   (call k of the wrapped get_buffered_data exposes max 1 ws[k] bytes; an empty window is EOF, as the
+   sqfs_istream_t contract says); the consumer is an arbitrary list of (want, take) requests. *)
 From Coq Require Import List NArith Bool Arith.
-From SqfsV Require Import C15.XfrmModel C15.ToyCodec.
+From SqfsV Require Import C15.XfrmModel C15.XfrmSpec C15.XfrmBase C15.XfrmDrvZlib C15.XfrmDrvBzip2
+  C15.XfrmDrvZstd C15.XfrmIStreamProofs C15.XfrmOStreamProofs C15.ToyCodec C15.ToyFormat
+  C15.ToyDecProofs C15.ToyEncProofs C15.XfrmTop C15.XfrmOld.
 Import ListNotations.
-Example ex_placeholder : ref_decode_all 10 [167%N; 0%N; 0%N] = Some [].
+
+(* ================================================================== *)
+(* istream_xfrm                                                        *)
+(* ================================================================== *)
+
+(* For every format, every driver meeting the decoder-driver contract, every buffer size, every
+   sequence of complete members Z (decode_all Z = P), EVERY chunking ws of the compressed bytes and
+   EVERY sequence of consumer requests (want >= 1): no error, no fuel exhaustion (the loop of precache
+   terminates), the bytes delivered are a prefix of P, EOF is reported only after the last byte of
+   P, and a consumer that takes at least one byte per request reaches EOF within |P|+1 requests. *)
+Theorem istream_xfrm_transparent :
+  forall (Member : list N -> list N -> Prop), format_ok Member ->
+  forall (D : Type) (drv : driver D) (DR : D -> list N -> list N -> Prop),
+  ddrv_contract Member D drv DR ->
+  forall bufsz, 0 < bufsz -> forall d0, DR d0 [] [] ->
+  forall Z P ws ops acc e s',
+  Stream Member Z P -> wants_ok ops ->
+  reader drv bufsz (istream_init d0 Z ws) ops [] = (acc, e, s') ->
+  prefix acc P /\ e <> RErr /\ e <> RFuel /\ (e = REof -> acc = P) /\
+  (takes_ok ops -> length P < length ops -> e = REof /\ acc = P).
+Proof. exact istream_transparent_l. Qed.
+Print Assumptions istream_xfrm_transparent.
+
+(* EOF is sound on EVERY input (valid or not): it is reported only when the whole input has been
+   consumed, is a sequence of complete members, and all of their contents has been delivered; and
+   precache terminates on every input. *)
+Theorem istream_eof_sound :
+  forall (Member : list N -> list N -> Prop)
+         (D : Type) (drv : driver D) (DR : D -> list N -> list N -> Prop),
+  ddrv_contract Member D drv DR ->
+  forall bufsz, 0 < bufsz -> forall d0, DR d0 [] [] ->
+  forall Z ws ops acc e s',
+  wants_ok ops -> reader drv bufsz (istream_init d0 Z ws) ops [] = (acc, e, s') ->
+  e <> RFuel /\ (e = REof -> Stream Member Z acc).
+Proof. exact istream_eof_sound_l. Qed.
+Print Assumptions istream_eof_sound.
+
+(* Truncation.  The input is zs ++ x: complete members followed by a NON-EMPTY PROPER prefix x of a
+   member (x ++ y with y <> []).  Then EOF is never reported; what is delivered is a prefix of what
+   the untruncated stream contains; a consumer taking a byte per request ends with an ERROR.
+   (A cut exactly between members, x = [], is a shorter valid stream and is accepted -- by
+   [istream_xfrm_transparent]; nothing in the compressed layer can tell it from a complete one.) *)
+Theorem truncated_is_error :
+  forall (Member : list N -> list N -> Prop), format_ok Member ->
+  forall (D : Type) (drv : driver D) (DR : D -> list N -> list N -> Prop),
+  ddrv_contract Member D drv DR ->
+  forall bufsz, 0 < bufsz -> forall d0, DR d0 [] [] ->
+  forall zs ps x y p ws ops acc e s',
+  Stream Member zs ps -> Member (x ++ y) p -> x <> [] -> y <> [] -> wants_ok ops ->
+  reader drv bufsz (istream_init d0 (zs ++ x) ws) ops [] = (acc, e, s') ->
+  e <> REof /\ e <> RFuel /\ prefix acc (ps ++ p) /\
+  (takes_ok ops -> length (ps ++ p) < length ops -> e = RErr).
+Proof. exact truncated_l. Qed.
+Print Assumptions truncated_is_error.
+
+(* ... and in general: input that is not a sequence of complete members (trailing garbage, damaged
+   trailer, ...) never ends in EOF *)
+Theorem not_a_stream_never_eof :
+  forall (Member : list N -> list N -> Prop)
+         (D : Type) (drv : driver D) (DR : D -> list N -> list N -> Prop),
+  ddrv_contract Member D drv DR ->
+  forall bufsz, 0 < bufsz -> forall d0, DR d0 [] [] ->
+  forall Z ws ops acc e s',
+  (forall P, ~ Stream Member Z P) -> wants_ok ops ->
+  reader drv bufsz (istream_init d0 Z ws) ops [] = (acc, e, s') -> e <> REof /\ e <> RFuel.
+Proof. exact not_stream_no_eof_l. Qed.
+Print Assumptions not_a_stream_never_eof.
+
+(* ================================================================== *)
+(* ostream_xfrm                                                        *)
+(* ================================================================== *)
+
+(* For every driver meeting the encoder-driver contract, every buffer size and EVERY list of appended
+   chunks (any sizes) followed by one flush: there is a fuel bound from which on the writer's result
+   does not depend on the fuel (the loops of flush_inbuf terminate; measure: (unflushed input, backlog
+   [emu]) lexicographically -- drain-on-finish included: the output need not fit one outbuf) and is
+   [Ok]: the calls on the wrapped stream are appends followed by exactly one flush; the bytes written
+   are a sequence of complete members whose contents are exactly the appended bytes (none if nothing
+   was appended); inbuf is empty and the driver back on a member boundary (the stream is finished). *)
+Theorem ostream_xfrm_transparent :
+  forall (Member : list N -> list N -> Prop)
+         (D : Type) (drv : driver D) (ER : D -> list N -> list N -> Prop) (emu : D -> nat) (dfin : D -> Prop),
+  edrv_contract Member D drv ER emu dfin ->
+  forall bufsz, 0 < bufsz ->
+  forall d0 chunks, ER d0 [] [] -> ~ dfin d0 ->
+  exists n s' os,
+    (forall lfuel, n <= lfuel -> writer drv bufsz lfuel (ostream_init d0) chunks = Ok s') /\
+    o_log s' = map EvAppend os ++ [EvFlush] /\
+    log_bytes (o_log s') = concat os /\
+    Stream Member (concat os) (concat chunks) /\
+    o_inbuf s' = [] /\ ER (o_drv s') [] [] /\ ~ dfin (o_drv s') /\ (concat chunks = [] -> os = []).
+Proof. exact ostream_transparent_l. Qed.
+Print Assumptions ostream_xfrm_transparent.
+
+(* ================================================================== *)
+(* the four driver loops meet the driver contracts                     *)
+(* ================================================================== *)
+
+(* gzip.c and xz.c (same control structure), decompressing: zlib/liblzma report "no progress" as
+   BUF_ERROR ([ok_progresses]) and count total_in ([mid_ok]) *)
+Theorem gzip_xz_decoder_meets_contract :
+  forall (Member : list N -> list N -> Prop), format_ok Member ->
+  forall (S : Type) (C : codec S) (Rep : S -> list N -> list N -> Prop),
+  dec_contract Member S C Rep true -> ok_progresses S C Rep -> mid_ok S C Rep ->
+  ddrv_contract Member S (mk_zlib C true) Rep.
+Proof. exact zlib_dec_ok. Qed.
+Print Assumptions gzip_xz_decoder_meets_contract.
+
+Theorem gzip_xz_encoder_meets_contract :
+  forall (Member : list N -> list N -> Prop)
+         (S : Type) (C : codec S) (ERep : S -> list N -> list N -> Prop) (mu : S -> nat) (efin : S -> Prop),
+  enc_contract Member S C ERep mu efin true ->
+  edrv_contract Member S (mk_zlib C false) ERep mu efin.
+Proof. exact zlib_enc_ok. Qed.
+Print Assumptions gzip_xz_encoder_meets_contract.
+
+(* bzip2.c: libbz2 has no BUF_ERROR class ([never_buf]); the driver tests the two differences itself *)
+Theorem bzip2_decoder_meets_contract :
+  forall (Member : list N -> list N -> Prop), format_ok Member ->
+  forall (S : Type) (C : codec S) (Rep : S -> list N -> list N -> Prop),
+  dec_contract Member S C Rep true -> never_buf S C Rep -> mid_ok S C Rep ->
+  ddrv_contract Member S (mk_bzip2 C true) Rep.
+Proof. exact bzip2_dec_ok. Qed.
+Print Assumptions bzip2_decoder_meets_contract.
+
+Theorem bzip2_encoder_meets_contract :
+  forall (Member : list N -> list N -> Prop)
+         (S : Type) (C : codec S) (ERep : S -> list N -> list N -> Prop) (mu : S -> nat) (efin : S -> Prop),
+  enc_contract Member S C ERep mu efin true -> enc_never_buf S C ERep efin ->
+  edrv_contract Member S (mk_bzip2 C false) ERep mu efin.
+Proof. exact bzip2_enc_ok. Qed.
+Print Assumptions bzip2_encoder_meets_contract.
+
+(* zstd.c: the library crosses frame boundaries by itself (resets = false); the driver state is
+   (library state, pending); libzstd returns 0 only from a call that did something ([end_progresses]) *)
+Theorem zstd_decoder_meets_contract :
+  forall (Member : list N -> list N -> Prop), format_ok Member ->
+  forall (S : Type) (C : codec S) (Rep : S -> list N -> list N -> Prop),
+  dec_contract Member S C Rep false -> end_progresses S C Rep ->
+  ddrv_contract Member (S * bool) (mk_zstd C true) (ZR S Rep).
+Proof. exact zstd_dec_ok. Qed.
+Print Assumptions zstd_decoder_meets_contract.
+
+Theorem zstd_encoder_meets_contract :
+  forall (Member : list N -> list N -> Prop)
+         (S : Type) (C : codec S) (ERep : S -> list N -> list N -> Prop) (mu : S -> nat) (efin : S -> Prop),
+  enc_contract Member S C ERep mu efin false ->
+  edrv_contract Member (S * bool) (mk_zstd C false) (ZER S ERep) (zmu S mu) (zfin S efin).
+Proof. exact zstd_enc_ok. Qed.
+Print Assumptions zstd_encoder_meets_contract.
+
+(* ================================================================== *)
+(* composed: library contract ==> stream theorem (gzip.c / xz.c; the    *)
+(* other drivers compose in exactly the same way)                      *)
+(* ================================================================== *)
+Theorem gzip_xz_istream_transparent :
+  forall (Member : list N -> list N -> Prop), format_ok Member ->
+  forall (S : Type) (C : codec S) (Rep : S -> list N -> list N -> Prop),
+  dec_contract Member S C Rep true -> ok_progresses S C Rep -> mid_ok S C Rep ->
+  forall bufsz, 0 < bufsz -> forall st0, Rep st0 [] [] ->
+  forall Z P ws ops acc e s',
+  Stream Member Z P -> wants_ok ops ->
+  reader (mk_zlib C true) bufsz (istream_init st0 Z ws) ops [] = (acc, e, s') ->
+  prefix acc P /\ e <> RErr /\ e <> RFuel /\ (e = REof -> acc = P) /\
+  (takes_ok ops -> length P < length ops -> e = REof /\ acc = P).
+Proof. exact gzip_xz_istream_transparent_l. Qed.
+Print Assumptions gzip_xz_istream_transparent.
+
+Theorem gzip_xz_truncated_is_error :
+  forall (Member : list N -> list N -> Prop), format_ok Member ->
+  forall (S : Type) (C : codec S) (Rep : S -> list N -> list N -> Prop),
+  dec_contract Member S C Rep true -> ok_progresses S C Rep -> mid_ok S C Rep ->
+  forall bufsz, 0 < bufsz -> forall st0, Rep st0 [] [] ->
+  forall zs ps x y p ws ops acc e s',
+  Stream Member zs ps -> Member (x ++ y) p -> x <> [] -> y <> [] -> wants_ok ops ->
+  reader (mk_zlib C true) bufsz (istream_init st0 (zs ++ x) ws) ops [] = (acc, e, s') ->
+  e <> REof /\ e <> RFuel /\ prefix acc (ps ++ p) /\
+  (takes_ok ops -> length (ps ++ p) < length ops -> e = RErr).
+Proof. exact gzip_xz_truncated_is_error_l. Qed.
+Print Assumptions gzip_xz_truncated_is_error.
+
+Theorem gzip_xz_ostream_transparent :
+  forall (Member : list N -> list N -> Prop)
+         (S : Type) (C : codec S) (ERep : S -> list N -> list N -> Prop) (mu : S -> nat) (efin : S -> Prop),
+  enc_contract Member S C ERep mu efin true ->
+  forall bufsz, 0 < bufsz ->
+  forall st0 chunks, ERep st0 [] [] -> ~ efin st0 ->
+  exists n s' os,
+    (forall lfuel, n <= lfuel -> writer (mk_zlib C false) bufsz lfuel (ostream_init st0) chunks = Ok s') /\
+    o_log s' = map EvAppend os ++ [EvFlush] /\
+    log_bytes (o_log s') = concat os /\
+    Stream Member (concat os) (concat chunks) /\
+    o_inbuf s' = [] /\ ERep (o_drv s') [] [] /\ ~ efin (o_drv s') /\ (concat chunks = [] -> os = []).
+Proof. exact gzip_xz_ostream_transparent_l. Qed.
+Print Assumptions gzip_xz_ostream_transparent.
+
+(* ================================================================== *)
+(* non-vacuity: the toy codec (ToyCodec.v = props/C15/toy.h, the codec   *)
+(* the tie runs the REAL driver loops on) meets every hypothesis above, *)
+(* for every setting of its knobs                                      *)
+(* ================================================================== *)
+Theorem toy_format : format_ok TMember.
+Proof. exact toy_format_ok. Qed.
+Print Assumptions toy_format.
+
+Theorem toy_decoder_meets_library_contract :
+  dec_contract TMember tdst toy_dec TRep true /\ ok_progresses tdst toy_dec TRep /\ mid_ok tdst toy_dec TRep /\
+  dec_contract TMember tdst toy_dec TRep0 false /\ end_progresses tdst toy_dec TRep0.
+Proof. exact (conj toy_dec_contract (conj (toy_dec_okp true) (conj toy_dec_mid (conj toy_dec_contract0 (toy_dec_endp false))))). Qed.
+Print Assumptions toy_decoder_meets_library_contract.
+
+Theorem toy_encoder_meets_library_contract :
+  forall resets, enc_contract TMember test toy_enc TERep phi tefin resets.
+Proof. exact toy_enc_contract_g. Qed.
+Print Assumptions toy_encoder_meets_library_contract.
+
+(* the eight instances of the tie: real gzip.c/xz.c, bzip2.c, zstd.c loops on the toy codec *)
+Theorem toy_instances_meet_driver_contracts :
+  ddrv_contract TMember tdst toy_gzip_dec TRep /\
+  ddrv_contract TMember tdst toy_bzip2_dec TRep /\
+  ddrv_contract TMember (tdst * bool) toy_zstd_dec (ZR tdst TRep0) /\
+  edrv_contract TMember test toy_gzip_enc TERep phi tefin /\
+  edrv_contract TMember test toy_bzip2_enc TERep phi tefin /\
+  edrv_contract TMember (test * bool) toy_zstd_enc (ZER test TERep) (zmu test phi) (zfin test tefin).
+Proof.
+  exact (conj toy_gzip_dec_ok (conj toy_bzip2_dec_ok (conj toy_zstd_dec_ok
+        (conj toy_gzip_enc_ok (conj toy_bzip2_enc_ok toy_zstd_enc_ok))))).
+Qed.
+Print Assumptions toy_instances_meet_driver_contracts.
+
+Theorem toy_initial_states :
+  (forall wm maxin maxout finbuf, TRepG wm (toy_dec_init maxin maxout finbuf) [] []) /\
+  (forall blk maxin maxout greedy finrun, 1 <= blk ->
+     TERep (toy_enc_init blk maxin maxout greedy finrun) [] [] /\
+     ~ tefin (toy_enc_init blk maxin maxout greedy finrun)).
+Proof. exact (conj toy_dec_init_rep toy_enc_init_rep). Qed.
+Print Assumptions toy_initial_states.
+
+Local Open Scope N_scope.
+
+(* two members: literal block "abc" + run of 5 'z' with checksum; final run of 3 'q' (no checksum) *)
+Definition ex_z : list N := [167; 1; 3; 97; 98; 99; 2; 5; 0; 122; 0; 136] ++ [167; 3; 3; 0; 113].
+Definition ex_p : list N := [97; 98; 99; 122; 122; 122; 122; 122; 113; 113; 113].
+
+Example ex_stream : Stream TMember ex_z ex_p.
+Proof.
+  change ex_p with (([97; 98; 99] ++ repeat 122 5 ++ []) ++ (repeat 113 3) ++ []).
+  unfold ex_z. apply St_cons; [|rewrite <- (app_nil_r [167; 3; 3; 0; 113]); apply St_cons; [|apply St_nil]].
+  - apply R_magic; [reflexivity|]. apply R_tag_lit; [reflexivity|]. apply R_litlen; [discriminate|].
+    change (nat_of_byte 3) with 3%nat. do 3 apply R_litS. apply R_lit0.
+    apply R_tag_run; [reflexivity|]. apply R_runlo. apply R_runhi; [reflexivity|]. apply R_runb.
+    apply (R_out _ 5%nat 122 [0; 136] []). apply R_tag_end; [reflexivity|]. apply R_chk. reflexivity.
+  - apply R_magic; [reflexivity|]. apply R_tag_fin; [reflexivity|]. apply R_runlo. apply R_runhi; [reflexivity|].
+    apply R_runb. apply (R_out_fin _ 3%nat 113).
+Qed.
+
+(* buffer of 4 bytes (the 11 plain bytes cross it twice), compressed input offered one byte at a time,
+   library throttled to 1 byte in / 1 byte out per call, BUF_ERROR under Z_FINISH: everything arrives,
+   then EOF *)
+Example ex_istream_gzip :
+  reader toy_gzip_dec 4 (istream_init (toy_dec_init 1 1 true) ex_z (repeat 1%nat 40))
+         (repeat (3%nat, 2%nat) 10) [] =
+  (ex_p, REof, snd (reader toy_gzip_dec 4 (istream_init (toy_dec_init 1 1 true) ex_z (repeat 1%nat 40))
+                            (repeat (3%nat, 2%nat) 10) [])).
+Proof. vm_compute. reflexivity. Qed.
+
+Example ex_istream_zstd :
+  fst (reader toy_zstd_dec 4 (istream_init (toy_dec_init 0 0 false, false) ex_z [5%nat; 1%nat; 100%nat])
+              (repeat (4%nat, 4%nat) 10) []) = (ex_p, REof).
+Proof. vm_compute. reflexivity. Qed.
+
+Example ex_istream_bzip2 :
+  fst (reader toy_bzip2_dec 4 (istream_init (toy_dec_init 2 3 false) ex_z [])
+              (repeat (1%nat, 1%nat) 20) []) = (ex_p, REof).
+Proof. vm_compute. reflexivity. Qed.
+
+(* the same input cut inside the second member (after "A7 03 03"): error, never EOF;
+   cut exactly between the members: a shorter valid stream *)
+Example ex_truncated_gzip :
+  fst (reader toy_gzip_dec 4 (istream_init (toy_dec_init 0 0 false) (firstn 15 ex_z) [])
+              (repeat (4%nat, 4%nat) 10) []) = (firstn 8 ex_p, RErr).
+Proof. vm_compute. reflexivity. Qed.
+Example ex_truncated_zstd :
+  fst (reader toy_zstd_dec 4 (istream_init (toy_dec_init 0 0 false, false) (firstn 15 ex_z) [])
+              (repeat (4%nat, 4%nat) 10) []) = (firstn 8 ex_p, RErr).
+Proof. vm_compute. reflexivity. Qed.
+Example ex_cut_between_members :
+  fst (reader toy_gzip_dec 4 (istream_init (toy_dec_init 0 0 false) (firstn 12 ex_z) [])
+              (repeat (4%nat, 4%nat) 10) []) = (firstn 8 ex_p, REof).
+Proof. vm_compute. reflexivity. Qed.
+(* trailing garbage: an error (reported as soon as the driver meets it: the last three bytes, decoded in
+   the same precache, are not delivered) *)
+Example ex_garbage :
+  fst (reader toy_gzip_dec 4 (istream_init (toy_dec_init 0 0 false) (ex_z ++ [0]) [])
+              (repeat (4%nat, 4%nat) 10) []) = (firstn 8 ex_p, RErr).
+Proof. vm_compute. reflexivity. Qed.
+
+(* writer: 3 chunks, inbuf/outbuf of 4 bytes, block size 2: the member does not fit one outbuf (drained on
+   finish); the bytes written decode to the appended bytes *)
+Definition ex_chunks : list (list N) := [[1; 2; 3]; []; [4; 4; 4; 4; 4; 5]].
+Definition ex_written (drv : driver test) (greedy finrun : bool) : res (list N * list N) :=
+  match writer drv 4 50 (ostream_init (toy_enc_init 2 0 3 greedy finrun)) ex_chunks with
+  | Ok s => Ok (log_bytes (o_log s), o_inbuf s)
+  | Err => Err | Fuel => Fuel
+  end.
+Example ex_ostream_gzip :
+  match ex_written toy_gzip_enc false true with
+  | Ok (z, rest) => rest = [] /\ ref_decode_all 100 z = Some (concat ex_chunks)
+  | _ => False
+  end.
+Proof. vm_compute. split; reflexivity. Qed.
+Example ex_ostream_bzip2 :
+  match ex_written toy_bzip2_enc true false with
+  | Ok (z, rest) => rest = [] /\ ref_decode_all 100 z = Some (concat ex_chunks)
+  | _ => False
+  end.
+Proof. vm_compute. split; reflexivity. Qed.
+Example ex_ostream_zstd :
+  match writer toy_zstd_enc 4 50 (ostream_init (toy_enc_init 2 0 3 false true, false)) ex_chunks with
+  | Ok s => o_inbuf s = [] /\ ref_decode_all 100 (log_bytes (o_log s)) = Some (concat ex_chunks)
+  | _ => False
+  end.
+Proof. vm_compute. split; reflexivity. Qed.
+
+(* ================================================================== *)
+(* the OLD loops (before the F17/F18 repair), for the record            *)
+(* ================================================================== *)
+
+(* `while (in_size > 0 && out_size > 0)`: when flush_inbuf(true) comes back with no input left the
+   library is never called again, the 9-byte member never gets out of a 4-byte outbuf, flush_inbuf
+   spins: for EVERY fuel the writer runs out of it (sqfs2tar -c gzip|xz|bzip2 hung) *)
+Theorem finish_full_buffer_refuted :
+  forall lfuel, writer (mk_old_zlib toy_enc) w_bufsz lfuel (ostream_init w_e0) [w_plain] = Fuel.
+Proof. exact old_finish_never_drains_l. Qed.
+Print Assumptions finish_full_buffer_refuted.
+
+(* the repaired loop on the same case *)
+Example finish_full_buffer_repaired :
+  match writer (mk_zlib toy_enc false) w_bufsz 10 (ostream_init w_e0) [w_plain] with
+  | Ok s => ref_decode_all 100 (log_bytes (o_log s)) = Some w_plain
+  | _ => False
+  end.
+Proof. vm_compute. reflexivity. Qed.
+
+(* old zstd.c: END whenever the input is used up -- exit 0 with an unfinished frame *)
+Example finish_full_buffer_refuted_zstd :
+  match writer (mk_old_zstd toy_enc) w_bufsz 10 (ostream_init w_e0) [w_plain] with
+  | Ok s => log_bytes (o_log s) = [167; 1; 3; 1] /\ ref_decode_all 100 (log_bytes (o_log s)) = None
+  | _ => False
+  end.
+Proof. vm_compute. split; reflexivity. Qed.
+
+(* old loops: input cut inside a member (here: before the end marker) was a clean EOF -- and the four
+   bytes the decoder still owed when the input ran out were dropped *)
+Example truncated_accepted_refuted :
+  fst (reader (mk_old_zlib toy_dec) 4 (istream_init (toy_dec_init 0 0 false) (firstn 10 ex_z) [])
+              (repeat (4%nat, 4%nat) 10) []) = (firstn 4 ex_p, REof).
+Proof. vm_compute. reflexivity. Qed.
+Example truncated_now_error :
+  fst (reader toy_gzip_dec 4 (istream_init (toy_dec_init 0 0 false) (firstn 10 ex_z) [])
+              (repeat (4%nat, 4%nat) 10) []) = (firstn 8 ex_p, RErr).
+Proof. vm_compute. reflexivity. Qed.
+
+(* ================================================================== *)
+(* a quirk outside the property: want = 0                               *)
+(* ================================================================== *)
+(* xfrm_get_buffered_data(want = 0) on a buffer that has been consumed entirely does not refill and
+   reports EOF although input is left (the file istream guards the same test with its eof flag).
+   No caller in the tree passes want = 0 to an xfrm stream (istream_get_line does, on plain files
+   only); all theorems above assume want >= 1 ([wants_ok]). *)
+Example want_zero_spurious_eof :
+  fst (reader toy_gzip_dec 4 (istream_init (toy_dec_init 0 0 false) ex_z []) [(4%nat, 4%nat); (0%nat, 1%nat)] [])
+  = (firstn 4 ex_p, REof).
 Proof. vm_compute. reflexivity. Qed.
